@@ -305,7 +305,9 @@ def extract_pin_cite(
         parenthetical = process_parenthetical(m["parenthetical"])
         return (
             pin_cite,
-            from_token.end + extra_chars - len(prefix),
+            # the scanned text is capped at MAX_MATCH_CHARS, which can be
+            # shorter than the prefix: never end before the token itself
+            max(from_token.end, from_token.end + extra_chars - len(prefix)),
             parenthetical,
         )
     return None, None, None
